@@ -13,7 +13,7 @@ use crate::wr::{calls_from_tree, calls_json, run_calls, WCall, WRes};
 pub static DEF: PropDef = PropDef {
     id: "C19",
     level: "fault_enumeration",
-    rule: "each case: a valid call history H (random conformant tree, known/unknown/explicit-width masters, random Full collapsing; histories with a failing call are discarded) and one failure kind; the failing call(s) are inserted at EVERY position of H (quick: every position of histories up to 14 calls, else 8 random positions; thorough: every position) and H+ is run on a fresh writer to completion incl. into_inner(). Failure kinds: misplaced leaf / misplaced master Start / Utf8-Binary too long for the requested width / Full master too big for its width / unknown size on a leaf (both APIs) / malformed raw id / End of a master that is not innermost or with nothing open / Full containing an invalid child (misplaced element, stray End, raw child with a malformed id, also behind a nested master given as a bare Start that is never closed) at depth 1-3 after 0-k valid children / two or three failing calls in a row / End of a master whose content does not fit the explicit size width it was started with (the accepted Start and content are part of both histories). Oracle: inserted calls that return Ok are not failing calls (position is vacuous); otherwise every original call must return the same result kind as in H, into_inner() must end the same way, and the destination bytes must be identical. distinct = (failure kind, shadow-stack shape at the insertion point); non-trivial iff the shadow stack was non-empty at the insertion point.",
+    rule: "each case: a valid call history H (random conformant tree, known/unknown/explicit-width masters, random Full collapsing; histories with a failing call are discarded) and one failure kind; the failing call(s) are inserted at EVERY position of H (quick: every position of histories up to 14 calls, else 8 random positions; thorough: every position) and H+ is run on a fresh writer to completion incl. into_inner(). Failure kinds: misplaced leaf / misplaced master Start / Utf8-Binary too long for the requested width / Full master too big for its width / unknown size on a leaf (both APIs) / malformed raw id / End of a master that is not innermost or with nothing open / Full containing an invalid child (misplaced element, stray End — of another master, of a master open further out, or of the Full's own master —, raw child with a malformed id, also behind a nested master given as a bare Start that is never closed) at depth 1-3 after 0-k valid children / two or three failing calls in a row / End of a master whose content does not fit the explicit size width it was started with (the accepted Start and content are part of both histories). Oracle: inserted calls that return Ok are not failing calls (position is vacuous); otherwise every original call must return the same result kind as in H, into_inner() must end the same way, and the destination bytes must be identical. distinct = (failure kind, shadow-stack shape at the insertion point); non-trivial iff the shadow stack was non-empty at the insertion point.",
     assumptions: &["I/O errors are outside the property and not injected here", "a candidate failing call that the writer accepts is not a C19 case (acceptance is C11's subject); such positions are counted as vacuous"],
     cases_quick: 80_000,
     cases_thorough: 500_000,
@@ -211,15 +211,20 @@ fn build_bad_full(rng: &mut Rng, spec: &Spec, e: &Elem, chain: &[u64], depth: us
             0 => {
                 // a stray End inside the Full: of another master, or of a master that is open further out
                 let masters = spec.masters();
-                let cands: Vec<u64> = masters.into_iter().filter(|m| *m != e.id).collect();
+                let mut cands: Vec<u64> = masters.into_iter().filter(|m| *m != e.id).collect();
                 if cands.is_empty() {
-                    return None;
+                    cands.push(e.id);
                 }
-                let id = if !chain.is_empty() && rng.chance(1, 2) { *rng.pick(chain) } else { *rng.pick(&cands) };
-                if id == e.id {
-                    return None;
-                }
+                // ... or of the Full's own master (which a child must not close), possibly followed by more children
+                let id = if rng.chance(1, 3) { e.id } else if !chain.is_empty() && rng.chance(1, 2) { *rng.pick(chain) } else { *rng.pick(&cands) };
                 children.push(Item::End(id));
+                if id == e.id && rng.chance(1, 2) {
+                    let leaves: Vec<&&Elem> = allowed.iter().filter(|x| x.ty != Ty::Master).collect();
+                    if !leaves.is_empty() {
+                        let pick: &Elem = **rng.pick(&leaves);
+                        children.push(sample_value(rng, pick));
+                    }
+                }
             }
             1 => {
                 // a raw child with a malformed id
